@@ -1,0 +1,102 @@
+//go:build verif
+
+package geom
+
+import "sort"
+
+// VerifDCEL is a plain-data export of the overlay's doubly connected edge
+// list, for verification harnesses. Vertices, half edges and faces are
+// referred to by their (1 based) position in the respective slices.
+type VerifDCEL struct {
+	Vertices  []VerifVertex
+	HalfEdges []VerifHalfEdge
+	Faces     []VerifFace
+}
+
+// VerifVertex is a vertex record of the overlay.
+type VerifVertex struct {
+	XY          XY
+	Src, InSet  [2]bool
+	LocInterior [2]bool
+	LocBoundary [2]bool
+	Incidents   []int
+}
+
+// VerifHalfEdge is a half edge record of the overlay.
+type VerifHalfEdge struct {
+	Origin, Twin, Next, Prev, Face int
+	SrcEdge, SrcFace, InSet        [2]bool
+	Seq                            []XY
+}
+
+// VerifFace is a face record of the overlay.
+type VerifFace struct {
+	Cycle int
+	InSet [2]bool
+}
+
+// VerifOverlayDump builds the overlay of a and b (exactly as the set
+// operations and Relate do) and exports it. It is only compiled with the
+// verif build tag and has no effect on any other code.
+func VerifOverlayDump(a, b Geometry) VerifDCEL {
+	d := newDCELFromGeometries(a, b)
+
+	verts := make([]*vertexRecord, 0, len(d.vertices))
+	for _, v := range d.vertices {
+		verts = append(verts, v)
+	}
+	sort.Slice(verts, func(i, j int) bool { return verts[i].coords.Less(verts[j].coords) })
+	vertID := make(map[*vertexRecord]int, len(verts))
+	for i, v := range verts {
+		vertID[v] = i + 1
+	}
+
+	edges := make([]*halfEdgeRecord, 0, len(d.halfEdges))
+	for _, e := range d.halfEdges {
+		edges = append(edges, e)
+	}
+	key := func(e *halfEdgeRecord) [2]XY { return [2]XY{e.seq.GetXY(0), e.seq.GetXY(1)} }
+	sort.Slice(edges, func(i, j int) bool {
+		ki, kj := key(edges[i]), key(edges[j])
+		if ki[0] != kj[0] {
+			return ki[0].Less(kj[0])
+		}
+		return ki[1].Less(kj[1])
+	})
+	edgeID := make(map[*halfEdgeRecord]int, len(edges))
+	for i, e := range edges {
+		edgeID[e] = i + 1
+	}
+	faceID := make(map[*faceRecord]int, len(d.faces))
+	for i, f := range d.faces {
+		faceID[f] = i + 1
+	}
+
+	var out VerifDCEL
+	for _, v := range verts {
+		vv := VerifVertex{XY: v.coords, Src: v.src, InSet: v.inSet}
+		for op := 0; op < 2; op++ {
+			vv.LocInterior[op] = v.locations[op].interior
+			vv.LocBoundary[op] = v.locations[op].boundary
+		}
+		for e := range v.incidents {
+			vv.Incidents = append(vv.Incidents, edgeID[e])
+		}
+		sort.Ints(vv.Incidents)
+		out.Vertices = append(out.Vertices, vv)
+	}
+	for _, e := range edges {
+		ve := VerifHalfEdge{
+			Origin: vertID[e.origin], Twin: edgeID[e.twin], Next: edgeID[e.next], Prev: edgeID[e.prev], Face: faceID[e.incident],
+			SrcEdge: e.srcEdge, SrcFace: e.srcFace, InSet: e.inSet,
+		}
+		for i := 0; i < e.seq.Length(); i++ {
+			ve.Seq = append(ve.Seq, e.seq.GetXY(i))
+		}
+		out.HalfEdges = append(out.HalfEdges, ve)
+	}
+	for _, f := range d.faces {
+		out.Faces = append(out.Faces, VerifFace{Cycle: edgeID[f.cycle], InSet: f.inSet})
+	}
+	return out
+}
